@@ -23,7 +23,7 @@ static int lift_lookup(const char* name, long long* out, double* dout)
     char key[128], val[128];
     int  found = 0;
     while (fscanf(f, "%127s %127s", key, val) == 2)
-        if (strcmp(key, name) == 0) { *out = strtoll(val, 0, 0); *dout = strtod(val, 0); found = 1; break; }
+        if (strcmp(key, name) == 0) { *out = (val[0] == 0x2d) ? strtoll(val, 0, 0) : (long long)strtoull(val, 0, 0); *dout = strtod(val, 0); found = 1; break; }
     fclose(f);
     return found;
 }
